@@ -430,6 +430,18 @@ fn td_segment<'a, B: DecisionNNFBuilder<'a>>(b: &'a B, cnfs: &[Cnf], nv: usize, 
                 return;
             }
         }
+        // node counting (C10: a structural answer, and no residue of the conditioning above)
+        if rng.chance(1, 3) {
+            let a = rng.below(pool.len());
+            let x = pool[a];
+            let mut ev = json!({"ev": "count", "a": [a]});
+            match guarded(|| x.count_nodes()) {
+                Ok(v) => ev["val"] = json!(v),
+                Err(m) => ev["panic"] = json!(m),
+            }
+            ev["dirty"] = json!(ids.dirty());
+            out.emit(ev);
+        }
         // evaluation and counting of top-down results (C07)
         if rng.chance(1, 3) {
             let a = rng.below(pool.len());
@@ -453,6 +465,7 @@ fn td_segment<'a, B: DecisionNNFBuilder<'a>>(b: &'a B, cnfs: &[Cnf], nv: usize, 
             if let Err(m) = crate::bdd_rec::count_in(x, &wq, nv, &mut ev) {
                 ev["panic"] = json!(m);
             }
+            ev["dirty"] = json!(ids.dirty());
             out.emit(ev);
         }
     }
